@@ -8,7 +8,7 @@ use serde_json::Value;
 use unic_locale::extensions::ExtensionsMap;
 use unic_locale::{LanguageIdentifier, Locale};
 
-pub const RULE: &str = "Domain: clause 1 (every input LanguageIdentifier accepts): the whole C02 byte space (exhaustive token sequences up to 4 | 5 subtags, G2/G3/G4/G5) with both parsers run on the same input; clause 2 (id == LanguageIdentifier of the part before the first singleton): every well-formed input of the C03 locale space; conversions: the reachable values of C04. Differential between two entry points of the library; the reference model is used only to recognise well-formed locale strings. Non-trivial = LanguageIdentifier-accepted input with >= 2 subtags, or a well-formed locale string with >= 1 extension, or a value with extensions. Distinctness: enumerations by construction, generated cases through a hash set.";
+pub const RULE: &str = "Domain: clause 1 (every input LanguageIdentifier accepts): the whole C02 byte space (exhaustive token sequences up to 4 | 5 subtags, G2/G3/G4/G5) with both parsers run on the same input; clause 2 (id == LanguageIdentifier of the part before the first singleton): every well-formed input of the C03 locale space; conversions: the reachable values of C04. Differential between two entry points of the library; the reference model is used only to recognise well-formed locale strings. The value clauses run after Display writes into failing sinks on the same thread. Non-trivial = LanguageIdentifier-accepted input with >= 2 subtags, or a well-formed locale string with >= 1 extension, or a value with extensions. Distinctness: enumerations by construction, generated cases through a hash set.";
 
 pub fn check_bytes(b: &[u8], st: &mut Stats, mode: Count) {
     netted(st, || bytes_case(b), b.len(), |st| check_bytes_inner(b, st, mode));
